@@ -116,8 +116,13 @@ ADir(node, path, base, mask, env, st) ==
   ELSE LET r == AKids(node, DOMAIN node.c, path, base, mask, env, st, <<>>) IN
        Res([k |-> IF mask THEN "phantom" ELSE "dir", c |-> r.c], [r.st EXCEPT !.dirs = @ + 1])
 
+\* Re-check paths arrive as the watcher reports them, i.e. in on-disk form: rc = [raw |-> path, nfc |-> its NFC
+\* form].  On a filesystem that decomposes Unicode the scan compares them with RECOMPOSED content paths, so it
+\* recomposes them first (repaired behaviour, see docs/scan.md "Defects found"; before the repair the raw form
+\* was used and a change below a directory with a decomposable name was missed).
+ScanPaths(recheck, cfg) == {IF cfg.decomp THEN rc.nfc ELSE rc.raw : rc \in recheck}
 \* dirty-path closure: every re-check path and every parent component of one
-DirtyClosure(recheck) == UNION {ProperPrefixes(p) \cup {p} : p \in recheck}
+DirtyClosure(paths) == UNION {ProperPrefixes(p) \cup {p} : p \in paths}
 
 NoBaseline == [ok |-> FALSE]
 Result(content, st, cfg) ==
@@ -126,7 +131,8 @@ Result(content, st, cfg) ==
 
 RootKind(e) == IF e.k = "dir" THEN "dir" ELSE IF e.k = "file" THEN "file" ELSE "x"
 
-\* Scan.  baseline: a previous Result (or NoBaseline), ocache/oicache the caches that came with it.
+\* Scan.  baseline: a previous Result (or NoBaseline), ocache/oicache the caches that came with it,
+\* recheck: a set of [raw, nfc] re-check paths.
 AScan(facts, cfg, baseline, recheck, ocache, oicache, linux) ==
   IF facts.t = "none" THEN Result(Nil, St0, [pres |-> FALSE, decomp |-> FALSE])   \* no root: empty snapshot
   ELSE IF ~Scannable(facts) THEN NoBaseline                                      \* "unable to open synchronization root"
@@ -137,7 +143,7 @@ AScan(facts, cfg, baseline, recheck, ocache, oicache, linux) ==
   IN
   IF baselineValid /\ recheck = {} THEN [baseline EXCEPT !.cache = ocache, !.icache = oicache]
   ELSE
-  LET env == [cfg |-> cfg, dirty |-> IF baselineValid THEN DirtyClosure(recheck) ELSE {},
+  LET env == [cfg |-> cfg, dirty |-> IF baselineValid THEN DirtyClosure(ScanPaths(recheck, cfg)) ELSE {},
               ocache |-> ocache, oicache |-> oicache, linux |-> linux]
       r == IF facts.t = "dir"
            THEN ADir(facts, <<>>, IF baselineValid THEN baseline.content ELSE Nil, FALSE, env, St0)
